@@ -143,10 +143,10 @@ Qed.
 
 (* what float() reads, with any conversion of the same rational *)
 Definition reads_as (neg : bool) (d k : Z) (s : str) : Prop :=
-  exists j, 0 <= j /\ py_dec s = Some (neg, PDec (d * 10 ^ j) (k - j)).
+  exists j, 0 <= j /\ (j = 0 \/ j = k + 1) /\ py_dec s = Some (neg, PDec (d * 10 ^ j) (k - j)).
 
 Lemma reads_as_0 neg d k s m e : py_dec s = Some (neg, PDec m e) -> m = d -> e = k -> reads_as neg d k s.
-Proof. intros H -> ->. exists 0. split; [lia|]. rewrite H, Z.pow_0_r, Z.mul_1_r, Z.sub_0_r. reflexivity. Qed.
+Proof. intros H -> ->. exists 0. split; [lia|]. split; [left; reflexivity|]. rewrite H, Z.pow_0_r, Z.mul_1_r, Z.sub_0_r. reflexivity. Qed.
 
 Theorem repr_layout_shape neg d k : 0 < d -> ReprG (repr_layout neg d k) /\ reads_as neg d k (repr_layout neg d k).
 Proof.
@@ -196,7 +196,7 @@ Proof.
         assert (ADI : all_d (ds ++ zs) = true) by (apply all_d_app; split; [exact AD|apply zeros_all_d]).
         assert (NI : ds ++ zs <> []) by (destruct ds; [congruence|discriminate]).
         split; [apply RG_pos; auto; discriminate|].
-        exists (k + 1). split; [unfold decpt in *; lia|].
+        exists (k + 1). split; [unfold decpt in *; lia|]. split; [right; reflexivity|].
         rewrite (py_dec_pos neg (ds ++ zs) [48%N] NI ADI eq_refl). do 3 f_equal.
         -- rewrite dval_app. unfold zs. rewrite zeros_dval, zeros_len, DV. change (dval [48%N]) with 0. change (len [48%N]) with 1.
            rewrite Z2Nat.id by lia. replace (decpt - n) with k by (unfold decpt; lia).
@@ -218,7 +218,7 @@ Qed.
 (* float() on a text that reads as d * 10^k *)
 Lemma reads_as_float neg d k s : 0 <= d -> reads_as neg d k s -> py_float s = Some (dec_to_sf neg d k).
 Proof.
-  intros Hd (j & Hj & P). rewrite py_float_factors. unfold float_with. rewrite P. cbn [option_map to_flt].
+  intros Hd (j & Hj & _ & P). rewrite py_float_factors. unfold float_with. rewrite P. cbn [option_map to_flt].
   rewrite dec_to_sf_shift by lia. reflexivity.
 Qed.
 
@@ -228,7 +228,7 @@ Proof. intros Hd. apply reads_as_float; [lia|]. apply repr_layout_shape. exact H
 (* the same through value_string's clean-up pass *)
 Theorem py_float_cleanup_repr_layout neg d k : 0 < d -> py_float (cleanup (repr_layout neg d k)) = Some (dec_to_sf neg d k).
 Proof.
-  intros Hd. destruct (repr_layout_shape neg d k Hd) as [G (j & Hj & P)].
+  intros Hd. destruct (repr_layout_shape neg d k Hd) as [G (j & Hj & _ & P)].
   destruct (cleanup_value _ G) as (neg' & m & e & m' & e' & P1 & P2 & _ & q & Hq & Em & Ee).
   rewrite P in P1. injection P1 as <- <- <-.
   assert (Pq : 0 < 10 ^ q) by (apply pow10_pos; lia). assert (Pj : 0 < 10 ^ j) by (apply pow10_pos; lia).
